@@ -41,6 +41,12 @@ GSETS = {
     "T,U=T,N=2 where": {"params": [ty("T", "Clone"), ty("U", "Clone", d="T"), cn("N", d="2")],
                         "where": ["U: Copy", "T: Iterator", "T::Item: Clone"]},
     "T:HasA": {"params": [ty("T", "crate::sup::HasA")], "where": []},
+    # bounds only in the where-clause, and required: `Need<T>` is declared `struct Need<X: Req>`, `T::NAME` needs `Named`,
+    # `[u8; N]: Default` constrains a const parameter (no type parameter at all: the fmt derives infer nothing)
+    "T where Req": {"params": [ty("T")], "where": ["T: crate::sup::Req + crate::sup::Named"], "uni": "crate::sup::Need<T>"},
+    "N where": {"params": [cn("N")], "where": ["[u8; N]: Default"]},
+    "'a,T,N where only": {"params": [lt("'a"), ty("T"), cn("N")], "where": ["T: 'a + crate::sup::Req", "[u8; N]: Default"],
+                          "uni": "crate::sup::P<(&'a crate::sup::Need<T>, [u8; N], )>"},
     "I": {"params": [ty("I")], "where": []},
     "Output,Target": {"params": [ty("Output", "Clone"), ty("Target")], "where": []},
     "Item,Err,Rhs": {"params": [ty("Item"), ty("Err"), ty("Rhs")], "where": ["Err: Clone"]},
@@ -217,6 +223,8 @@ def render_item(it, derives, control=False, with_extra=True):
 
 def uni(g):
     """a type mentioning every lifetime/type parameter (and usize consts); implements every trait involved"""
+    if "uni" in g:
+        return g["uni"]
     parts = []
     for p in g["params"]:
         if p["k"] == "lt":
@@ -330,6 +338,9 @@ TYFORMS = {
 NEEDS_HASA = {"qself-self", "assoc"}
 
 
+NO_BOUND_ATTRS = {"fmt-nogeneric", "lit-variants", "fmt-assoc-const", "fmt-const", "skip-generic"}
+
+
 def tyform(name, g, rng=None):
     """the field type of form `name` over generics g, or None when g cannot express it"""
     tys = [p for p in g["params"] if p["k"] == "ty"]
@@ -351,6 +362,15 @@ def tyform(name, g, rng=None):
 
 def compatible_gsets(attr):
     """generic parameter sets on which an attribute variant is expressible (None = all)"""
+    if attr in NO_BOUND_ATTRS:
+        # the derive infers no bound of its own here: the user's where-clause is all the impl has, so use generics sets
+        # that have one (and need it)
+        out = [gn for gn, g in GSETS.items() if g["where"]]
+        if attr == "fmt-assoc-const":
+            out = ["T where Req"]
+        if attr == "fmt-const":
+            out = [gn for gn in out if any(p["k"] == "const" and p["cty"] == "usize" for p in GSETS[gn]["params"])]
+        return out
     if not attr.startswith("tyform"):
         return None
     name = attr.split(":", 1)[1]
@@ -595,6 +615,10 @@ VARIANTS["TryFrom"] += [("esu", "repr"), ("es", "repr"), ("en", "repr")]
 VARIANTS["TryInto"] = [("em", "none"), ("em", "refs"), ("em", "ignore"), ("e1", "none"), ("es", "none"), ("esu", "none"),
                        ("em", "ignore-nonunit"), ("en", "none"), ("es", "refs")]
 
+for d_ in FMT_TRAITS + ["Debug"]:
+    VARIANTS[d_] += [("n2", "fmt-nogeneric"), ("em", "lit-variants"), ("n2", "fmt-const")]
+VARIANTS["Display"] += [("n2", "fmt-assoc-const")]
+VARIANTS["Debug"] += [("n2", "fmt-assoc-const"), ("n2", "skip-generic")]
 for f_ in TYFORMS:
     # the scans of field types for type parameters: fmt `contains_generics`, AsRef `GenericsSearch::any_in`,
     # Error `is_type_parameter_used_in_type`
@@ -995,6 +1019,37 @@ def b_fmt_common(c, ctx, trait, an, cls):
         else:
             it = mk_enum(ctx, [("tuple", [t]), ("named", [uni(g)]), ("unit", [])])
             it.variants[1].attrs.append('#[%s("other")]' % an)
+    elif c.attr in NO_BOUND_ATTRS:
+        # shapes for which the derive has nothing to add to the where-clause
+        if ctx.unin:
+            return None
+        if c.attr == "fmt-nogeneric":
+            it = mk_struct(ctx, "named", ["i32", uni(g)])
+            it.attrs.append('#[%s("<{%s}>", %s)]' % (an, ":?" if trait == "Debug" else (":x" if trait == "Pointer" else spec),
+                                                   it.fields[0].name))
+        elif c.attr == "skip-generic":
+            if trait != "Debug":
+                return None
+            it = mk_struct(ctx, "named", ["i32", uni(g)])
+            it.fields[1].attrs.append("#[debug(skip)]")
+        elif c.attr == "lit-variants":
+            it = mk_enum(ctx, [("unit", []), ("tuple", [uni(g)]), ("named", ["i32"])])
+            it.variants[0].attrs.append('#[%s("on")]' % an)
+            it.variants[1].attrs.append('#[%s("custom")]' % an)
+            it.variants[2].attrs.append('#[%s("plain")]' % an)
+        elif c.attr == "fmt-assoc-const":
+            if g.get("uni") != "crate::sup::Need<T>":
+                return None
+            it = mk_struct(ctx, "named", ["i32", "::core::marker::PhantomData<T>"])
+            it.attrs.append('#[%s("{} {}", %s, T::NAME)]' % (an, it.fields[0].name))
+            if trait not in ("Display", "Debug"):
+                return None
+        else:
+            cs = [p["n"] for p in g["params"] if p["k"] == "const" and p["cty"] == "usize"]
+            if not cs or trait == "Pointer":
+                return None
+            it = mk_struct(ctx, "named", ["[u8; %s]" % cs[0], uni(g)])
+            it.attrs.append('#[%s("{%s}", %s)]' % (an, ":?" if trait == "Debug" else spec, cs[0]))
     elif c.attr == "fmt-debug":
         # another formatting trait inside the literal: the bound must follow the placeholder, not the derived trait
         it = struct_of(ctx, c.shape, "debug")
@@ -1534,6 +1589,11 @@ pub mod sup {
     impl<W, X: ?Sized + Mark> std::error::Error for Cnd2<W, X> {}
     impl<W, X: ?Sized + Mark, Y: ?Sized> AsRef<Y> for Cnd2<W, X> { fn as_ref(&self) -> &Y { unimplemented!() } }
     impl<W, X: ?Sized + Mark, Y: ?Sized> AsMut<Y> for Cnd2<W, X> { fn as_mut(&mut self) -> &mut Y { unimplemented!() } }
+    /// needed for `Need<X>` to be well formed / for `X::NAME`: only a where-clause of the deriving type provides them
+    pub trait Req {}
+    pub trait Named { const NAME: &'static str; }
+    pub struct Need<X: Req>(pub PhantomData<X>);
+    everything!([X: Req] Need<X>, Need(PhantomData));
     pub trait TrObj<A> {}
     pub trait Src { type Out; }
     pub trait TrA<A> { type X; }
